@@ -1,77 +1,4 @@
-// C20 correspondence driver: runs the real StatusState::update_state and
-// ServiceState::update_service_state_entry on scripts read from stdin.
-//   S <bits>                 -> one digit per observation: 0 Success 1 Transitioning 2 Error 3 other
-//   R <n> <bit> <bits>       -> n repetitions of <bit>, then <bits>; prints only the outputs of the
-//                               last observation of the run and of each trailing bit
-//   N <max> k:v k:v ...      -> one digit per notification: 1 emitted, 0 silent
-use gpaext::common::StatusState;
-use gpaext::constants;
-use gpaext::service_main::service_state::ServiceState;
-use std::io::{self, BufRead, Write};
-
-fn code(s: &str) -> char {
-    if s == constants::SUCCESS_STATUS {
-        '0'
-    } else if s == constants::TRANSITIONING_STATUS {
-        '1'
-    } else if s == constants::ERROR_STATUS {
-        '2'
-    } else {
-        '3'
-    }
-}
-
+// thin entry point: the driver is compiled inside the crate (hook H6, src/drivers/c20.rs)
 fn main() {
-    let stdin = io::stdin();
-    let stdout = io::stdout();
-    let mut out = io::BufWriter::new(stdout.lock());
-    for line in stdin.lock().lines() {
-        let line = line.unwrap();
-        let mut it = line.split(' ');
-        match it.next() {
-            Some("S") => {
-                let bits = it.next().unwrap_or("");
-                let mut st = StatusState::new();
-                let mut o = String::with_capacity(bits.len());
-                for b in bits.chars() {
-                    o.push(code(&st.update_state(b == '1')));
-                }
-                writeln!(out, "{}", o).unwrap();
-            }
-            Some("R") => {
-                let n: u64 = it.next().unwrap().parse().unwrap();
-                let bit = it.next().unwrap() == "1";
-                let bits = it.next().unwrap_or("");
-                let mut st = StatusState::new();
-                let mut last = String::new();
-                for _ in 0..n {
-                    last = st.update_state(bit);
-                }
-                let mut o = String::new();
-                if n > 0 {
-                    o.push(code(&last));
-                }
-                for b in bits.chars() {
-                    o.push(code(&st.update_state(b == '1')));
-                }
-                writeln!(out, "{}", o).unwrap();
-            }
-            Some("N") => {
-                let max: u32 = it.next().unwrap().parse().unwrap();
-                let mut st = ServiceState::default();
-                let mut o = String::new();
-                for kv in it {
-                    if kv.is_empty() {
-                        continue;
-                    }
-                    let mut p = kv.splitn(2, ':');
-                    let k = p.next().unwrap();
-                    let v = p.next().unwrap_or("");
-                    o.push(if st.update_service_state_entry(k, v, max) { '1' } else { '0' });
-                }
-                writeln!(out, "{}", o).unwrap();
-            }
-            _ => writeln!(out, "?").unwrap(),
-        }
-    }
+    gpaext::verif_drivers::c20::main()
 }
